@@ -97,3 +97,33 @@ def forward_shadowing_contract(program, ast, outer_addr, inner_addr):
     check("inner_label_address", scopes[1].symbols.get("target") == inner_addr)
     check("symbol_bound_to_the_nearest_label_also_forward", scopes[1].symbols.get("ptr") == inner_addr)
     check("enclosing_scope_unaffected", "ptr" not in scopes[0].symbols)
+
+
+def scope_creation_contract(resolver, kind, name):
+    """append_scope / append_internal_scope / append_named_scope create a FRESH scope every time -- also when a sibling scope of the same name
+    exists already (two `.scope s { }` blocks, two applications, two iterations are different scopes) -- of the right class, empty, whose parent
+    is the current scope, appended last; nothing else changes (the current scope stays: ScopeNode activates the new one later)."""
+    from a816.symbols import InternalScope, NamedScope, Scope
+    before = list(resolver.scopes)
+    cur = resolver.current_scope
+    cursor = resolver.last_used_scope
+    if kind == "named":
+        resolver.append_named_scope(name)
+    elif kind == "internal":
+        resolver.append_internal_scope()
+    else:
+        resolver.append_scope()
+    check("one_scope_appended", len(resolver.scopes) == len(before) + 1)
+    new = resolver.scopes[len(before)]
+    i = 0
+    for old in before:
+        check("earlier_scopes_kept_in_place", resolver.scopes[i] is old)
+        check("the_new_scope_is_a_fresh_object", new is not old)
+        i = i + 1
+    check("class_of_the_new_scope", type(new) is (NamedScope if kind == "named" else InternalScope if kind == "internal" else Scope))
+    check("parent_is_the_current_scope", new.parent is cur)
+    check("new_scope_is_empty", len(new.symbols) == 0 and len(new.code_symbols) == 0 and len(new.labels) == 0 and new.table is None)
+    check("own_containers", all(new.symbols is not o.symbols and new.code_symbols is not o.code_symbols and new.labels is not o.labels for o in before))
+    if kind == "named":
+        check("name_recorded", new.name == name)
+    check("current_scope_and_cursor_unchanged", resolver.current_scope is cur and resolver.last_used_scope == cursor)
